@@ -51,8 +51,8 @@ macro_rules
           · simp at h
           · rename_i value u heq
             simp at heq h
-            bv_decide)
-       | bv_decide))
+            bv_decide (config := { timeout := 300 }))
+       | bv_decide (config := { timeout := 300 })))
 
 syntax "prove_refused32" : tactic
 macro_rules
@@ -63,9 +63,9 @@ macro_rules
        | (split at h
           · rename_i heq
             simp at heq
-            bv_decide
+            bv_decide (config := { timeout := 300 })
           · simp at h)
-       | bv_decide))
+       | bv_decide (config := { timeout := 300 })))
 
 /-! #### formats of the x86 backend and of `embed_label` / `embed_label_delta` -/
 def fS1 := simpleValue .signed 1
@@ -88,13 +88,13 @@ macro_rules
   | `(tactic| prove_exact64) => `(tactic|
       (intro off m h old hold
        offset_unfold
-       all_goals bv_decide))
+       all_goals bv_decide (config := { timeout := 300 })))
 syntax "prove_refused64" : tactic
 macro_rules
   | `(tactic| prove_refused64) => `(tactic|
       (intro off h w
        offset_unfold
-       all_goals bv_decide))
+       all_goals bv_decide (config := { timeout := 300 })))
 
 theorem fS1_exact : Exact32 fS1 := by unfold fS1; prove_exact32
 theorem fS1_refused : Refused32 fS1 := by unfold fS1; prove_refused32
@@ -133,7 +133,7 @@ macro_rules
   | `(tactic| prove_repr) => `(tactic|
       (intro off w h
        simp [simpleValue, immValue, decode32, decode64, specEnc32, specEnc64, sext64] at *
-       all_goals bv_decide))
+       all_goals bv_decide (config := { timeout := 300 })))
 theorem fS1_repr_complete : ReprComplete32 fS1 := by unfold fS1; prove_repr
 theorem fS2_repr_complete : ReprComplete32 fS2 := by unfold fS2; prove_repr
 theorem fS4_repr_complete : ReprComplete32 fS4 := by unfold fS4; prove_repr
@@ -244,7 +244,7 @@ theorem mask_fits_value_size : ∀ f ∈ formatsProved, f.valueSize ≠ 8 →
     have h1 : m &&& ~~~ fieldMask32 f = 0#32 := by simpa using h0
     have h2 : m &&& fieldMask32 f = m := by
       generalize fieldMask32 f = x at h1
-      bv_decide
+      bv_decide (config := { timeout := 300 })
     rw [← h2, BitVec.toNat_and]
     exact Nat.and_le_right
   omega
